@@ -71,10 +71,18 @@ class HarnessError(Exception):
 # --------------------------------------------------------------------------
 # small helpers
 # --------------------------------------------------------------------------
+def safe_fraction(x):
+    """exact rational of a float; NaN / inf from the implementation (which no model value is close to) become 10^300,
+    so that the comparison fails inside Coq or in the oracle instead of crashing the harness"""
+    x = float(x)
+    if x != x or x in (float("inf"), float("-inf")):
+        return Fraction(10 ** 300)
+    return Fraction(x)
+
+
 def q_of_float(x):
     """exact rational of a float as a Coq Q literal"""
-    fr = Fraction(x)
-    return q_lit(fr)
+    return q_lit(safe_fraction(x))
 
 
 def q_lit(fr):
